@@ -4,6 +4,7 @@
 //!
 //! usage:  c01 gen <seed> <n> [start]     generated programs seed/index
 //!         c01 run                        programs (line format, see ast.rs) from stdin
+//!         c01 compile                    same, but only instantiate and dump the compiled code (no execution)
 //! Configurations: v0, v1 (ValidationConfig), each plain / m0 / m1 (metering cost V0 / V1).
 mod ast;
 mod gen;
@@ -159,6 +160,8 @@ fn dump_code(art: &Art) -> J {
 
 const CONFIGS: [&str; 6] = ["v0", "v1", "v0m0", "v0m1", "v1m0", "v1m1"];
 
+static NORUN: std::sync::atomic::AtomicBool = std::sync::atomic::AtomicBool::new(false);
+
 fn process(id: &str, case: &Case, extra: J, dump: bool) {
     let line = case.to_line();
     let bytes = case.module.encode();
@@ -173,7 +176,8 @@ fn process(id: &str, case: &Case, extra: J, dump: bool) {
             Err(p) => json!({"inst": "PANIC", "msg": p}),
             Ok(Err(e)) => json!({"inst": "rejected", "msg": e}),
             Ok(Ok(art)) => {
-                let runs: Vec<J> = case.entries.iter().map(|e| { PROGRESS.fetch_add(1, Ordering::SeqCst); run_entry(&art, *e, &case.args) }).collect();
+                let runs: Vec<J> = if NORUN.load(Ordering::Relaxed) { vec![] } else {
+                    case.entries.iter().map(|e| { PROGRESS.fetch_add(1, Ordering::SeqCst); run_entry(&art, *e, &case.args) }).collect() };
                 if dump && (*cfg == "v1" || *cfg == "v1m0" || *cfg == "v1m1") {
                     let input = guarded(|| compiler_input(cfg, &bytes));
                     code.insert(cfg.to_string(), json!({"out": dump_code(&art), "in": match input { Ok(Ok(j)) => j, Ok(Err(e)) => json!(e), Err(p) => json!(p) }}));
@@ -194,7 +198,7 @@ fn watchdog() {
             std::thread::sleep(std::time::Duration::from_millis(500));
             let p = PROGRESS.load(Ordering::SeqCst);
             if p == last { stale += 1 } else { stale = 0; last = p }
-            if stale >= 20 {
+            if stale >= 60 {   // 30 s without finishing a single run
                 println!("{}", json!({"HANG": 1}));
                 std::process::exit(3);
             }
@@ -222,7 +226,8 @@ fn main() {
             }
             println!("{}", json!({"stats": st.0, "t_inst_us": T_INST.load(Ordering::Relaxed), "t_run_us": T_RUN.load(Ordering::Relaxed), "t_scan_us": T_SCAN.load(Ordering::Relaxed)}));
         }
-        "run" => {
+        "run" | "compile" => {
+            if mode == "compile" { NORUN.store(true, Ordering::Relaxed); }
             use std::io::BufRead;
             let stdin = std::io::stdin();
             for (i, l) in stdin.lock().lines().enumerate() {
